@@ -10,7 +10,7 @@ import vlib
 import interpfam as F
 
 LEVEL = "model_checking"
-SIMP_DEVS = ["Dev_SimpDollarDq", "Dev_SimpQuoteInDq", "Dev_SimpOnePass"]
+SIMP_DEVS = ["Dev_SimpDollarDq", "Dev_SimpQuoteInDq", "Dev_SimpOnePass", "Dev_SimpInlineWritten"]
 TIERS = {
     "quick":    {"MaxLen": 3, "MaxDepth": 2, "sim": (10, 6, 2), "bash": 700},
     "thorough": {"MaxLen": 4, "MaxDepth": 2, "sim": (300, 8, 3), "bash": 8000},
@@ -87,7 +87,12 @@ def judge(ck, v, src, r, bash_pair, counts):
     # (3) prints and re-parses
     if r.get("print_error") or r.get("reparse_error") or not r.get("reparse_same", True):
         why = r.get("print_error") or r.get("reparse_error") or "re-parses to a different tree"
-        if dev_tree:      # the tree that does not print is the deviation's tree, not the contract's
+        if r.get("orig_print_error"):
+            # the tree does not print and re-parse before Simplify either: the printer's defect, not Simplify's
+            import re
+            ck.violation("printer: the tree does not print and re-parse even before Simplify: " +
+                         re.sub(r"^\d+:\d+: ", "", r["orig_print_error"])[:80], dict(rec, text=r.get("text")))
+        elif dev_tree:      # the tree that does not print is the deviation's tree, not the contract's
             for d in trig:
                 ck.violation(d, dict(rec, text=r.get("text"), error=why))
         else:
@@ -100,7 +105,7 @@ def judge(ck, v, src, r, bash_pair, counts):
     if r["orig"].get("panic") or r["simp"].get("panic"):
         ck.violation("panic %s" % str(r["orig"].get("panic") or r["simp"].get("panic"))[:100], dict(rec, impl=r)); return
     if o != s_ or bool(r["orig"].get("timeout")) != bool(r["simp"].get("timeout")):
-        if dev_tree and v.get("unsound"):
+        if dev_tree and (v.get("unsound") or v.get("bad")):     # (or the original is outside what the model defines)
             for d in trig:
                 ck.violation(d, dict(rec, text=r["text"], interp_original=o, interp_simplified=s_))
         else:
@@ -112,7 +117,7 @@ def judge(ck, v, src, r, bash_pair, counts):
         if v.get("bad") == "" and bo != (F.text(v["out"]), v["st"]):
             ck.drift(dict(rec, bash_original=bo, spec=(F.text(v["out"]), v["st"])))
         if bo != bs:
-            if dev_tree and v.get("unsound"):
+            if dev_tree and (v.get("unsound") or v.get("bad")):     # (or the original is outside what the model defines)
                 for d in trig:
                     ck.violation(d, dict(rec, text=r["text"], bash_original=bo, bash_simplified=bs))
             else:
